@@ -19,6 +19,23 @@ Lemma sites_all_guarded :
   forallb (site_guarded ConcGen.cache_methods) ConcGen.cache_methods = true.
 Proof. vm_compute. reflexivity. Qed.
 
+(* the reachability search behind site_guarded never ran out of fuel on the table at hand *)
+Lemma reach_fuel_sufficient : reach_fuel_ok ConcGen.cache_methods = true.
+Proof. vm_compute. reflexivity. Qed.
+
+(* and when it does run out the answer is the explicit RsOutOfFuel, which site_guarded
+   counts as NOT guarded: an exported method that reaches the map through a chain of
+   three calls, searched with fuel 1; with the fuel of the table the lock is demanded *)
+Definition deep_table : fn_table := [
+  ("A"%string, true, ["call:b"%string]); ("b"%string, false, ["call:c"%string]);
+  ("c"%string, false, ["call:d"%string]); ("d"%string, false, ["write:Schemas"%string])].
+
+Lemma reaches_shared_out_of_fuel :
+  reaches_shared 1 deep_table ["A"%string] ["call:b"%string] = RsOutOfFuel /\
+  reaches_shared (reach_fuel deep_table) deep_table ["A"%string] ["call:b"%string] = RsYes /\
+  site_guarded deep_table ("A"%string, true, ["call:b"%string]) = false.
+Proof. repeat split; vm_compute; reflexivity. Qed.
+
 (* the access sequence of every method of *SchemaCache is the one Conc.v mirrors *)
 Lemma cache_methods_agree : ConcGen.cache_methods = expected_cache_methods.
 Proof. vm_compute. reflexivity. Qed.
